@@ -101,8 +101,9 @@ func c05Case(c *lib.Ctx, idx uint64) {
 		return
 	}
 	if parsed.HeaderSize == 14 && parsed.HeaderCRC == 0 {
-		c.Violation(out, "14-byte header written without its CRC")
-		return
+		// Legal under the protocol (0 = "not computed"), and the true CRC of 12 bytes is 0 once in
+		// 65536 headers: counted, not judged. ref.Parse has already verified a non-zero one.
+		c.Count("header_crc_zero_on_the_wire", 1)
 	}
 	// Definitions against the profile.
 	prof := lib.Profile()
